@@ -340,7 +340,7 @@ class DnsRecordTxtValueTlsRpt(FieldsSemicolonSeparated):
     )
 
 
-class SpfVersion(StringEnumParsable, enum.Enum):
+class SpfVersion(StringEnumCaseInsensitiveParsable, enum.Enum):
     SPF1 = FieldValueStringEnumParams(
         code='spf1',
         human_readable_name='SPF1',
